@@ -183,17 +183,17 @@ Theorem C16_real_block_chain_bound_all_depths_le :
                 @chain_queries f32 _ mix d k = Some q /\ (q <= 2 * N.of_nat d + 1)%N.
 Proof. exact BlockChainInductF32.chain_bound_all_depths. Qed.
 
-(* the induction, for any number structure: whenever the one-level check holds (for an exact equality `seq` of numbers; any ghost
+(* the induction, for any number structure: whenever the one-level check holds (for an exact equality `xeq` of numbers; any ghost
    equality `teq`), one compute_layout on the fresh chain of ANY depth d >= 1 succeeds with fuel d + 4, measures the leaf once and makes
    nqr + d + (nq - 1) * (d - 1) compute_cached_layout calls *)
 Theorem C16_real_block_chain_step :
-  forall (T : Type) (NT : Num T) (seq : T -> T -> bool), (forall a b, seq a b = true -> a = b) ->
-  forall (teq : T -> T -> bool) mix k nq nqr, family_ok seq mix k nq nqr = true ->
+  forall (T : Type) (NT : Num T) (xeq : T -> T -> bool), (forall a b, xeq a b = true -> a = b) ->
+  forall (teq : T -> T -> bool) mix k nq nqr, family_ok xeq mix k nq nqr = true ->
   forall d, (1 <= d)%nat ->
     exists lays ns, blr_layout_passes teq block_pre abs_child_block (d + 4) (chain mix d) [chain_avail k] = Some [(lays, ns)] /\
       n_meas (last ns stats0) = 1%N /\
       fold_right N.add 0%N (map n_query ns) = (N.of_nat nqr + N.of_nat d + N.of_nat (nq - 1) * N.of_nat (d - 1))%N.
-Proof. intros T NT seq Hseq teq mix k nq nqr Hok d Hd. apply (BlockChainInduct.chain_all_depths seq Hseq teq mix k nq nqr Hok d Hd). Qed.
+Proof. intros T NT xeq Hseq teq mix k nq nqr Hok d Hd. apply (BlockChainInduct.chain_all_depths xeq Hseq teq mix k nq nqr Hok d Hd). Qed.
 
 (* non-vacuity: the table covers all-defaults chains under every available space (rates 2, 1, 2), the premise of the generic step holds
    over binary32 (representation equality), and at depth 100 -- beyond the computed statement -- the plain chain under max-content
